@@ -129,6 +129,40 @@ theorem C09_lexed_tokens_wf (cls : Cls) (ff : Bool) (src : List Rune) (ts : List
     (h : allTokens cls ff src = .toks ts) : ∀ t ∈ ts, TokLitWF cls t :=
   allTokens_tokwf cls ff src ts h
 
+/-- **`tokenSource` is inverted by the lexer for every token the lexer can produce**: for a token `t`
+with a well-shaped literal, followed by admissible text, lexing `tokenSource t ++ rest` reads exactly
+one token with the same kind and literal and leaves `rest`. (Kinds: every literal kind, every operator
+and EOL; `' '` must be white space for the classifier — needed for DESCRIPTION only.) -/
+theorem C09_token_inv (cls : Cls) (hsp : cls.isSpace cSP = true) (c : Cur) (t : Token)
+    (hwf : TokLitWF cls t) (rest : List Rune) (hf : FollowOK cls t.ty rest)
+    (hkind : t.ty.isLiteral = true ∨ t.ty.isOperator = true) :
+    LexesTo cls c (tokenSource t) rest t.ty t.lit := by
+  unfold TokLitWF at hwf
+  unfold FollowOK at hf
+  cases hty : t.ty <;> rw [hty] at hwf hf hkind <;> simp only [] at hwf hf
+  case string => exact C09_token_inv_string cls c t hty rest
+  case regex => exact C09_token_inv_regex cls c t hty hwf rest hf
+  case ident =>
+    have := C09_token_inv_ident cls c t (Or.inl hty) hwf.1 rest hf
+    rwa [if_neg hwf.2] at this
+  case bool =>
+    have := C09_token_inv_ident cls c t (Or.inr hty) hwf.1 rest hf
+    rwa [if_pos hwf.2] at this
+  case int =>
+    obtain ⟨r, ds, h1, h2, h3⟩ := hwf
+    exact C09_token_inv_int cls c t hty r ds h1 h2 h3 rest hf
+  case decimal =>
+    obtain ⟨r, ds, fs, h1, h2, h3, h4, h5⟩ := hwf
+    exact C09_token_inv_decimal cls c t hty r ds fs h1 h2 h3 h4 h5 rest hf
+  case comment => exact C09_token_inv_comment cls c t hty hwf rest hf
+  case blockComment => exact C09_token_inv_blockComment cls c t hty hwf rest
+  case description => exact C09_token_inv_description cls hsp c t hty hwf.1 hwf.2 rest hf
+  case assign | lbrace | rbrace | lbrack | rbrack | dot | comma | colon | plus | bang | question =>
+    obtain ⟨r, h1, h2⟩ := hwf
+    have := C09_token_inv_operator cls c t r (by rw [hty]; exact h1) h2 rest
+    rwa [hty] at this
+  all_goals simp [TokenType.isLiteral, TokenType.isOperator] at hkind
+
 /-! ## Non-vacuity -/
 
 /-- `a/b"c` is a well-formed regex literal -/
@@ -143,6 +177,11 @@ example : IdentLitWF asciiCls (ofAscii "x_1") :=
     by decide⟩
 example : NoCloser (ofAscii "a * / b **") := by decide
 example : asciiCls.isSpace cSP = true := by decide
+/-- an error-free lex with every literal kind -/
+example : (match allTokens asciiCls true
+      (ofAscii "a.b = [1, 2.5, \"x\\\"\", /r//x/, true] // c\n/* b */ | d\n") with
+    | .toks ts => decide (ts.length = 20) | _ => false) = true := by decide +kernel
+
 end J5V.Props.C09
 
 /-! ## Obligations over facts regenerated from the current source -/
